@@ -50,6 +50,8 @@ pub enum Shape {
 	Bool,
 	Unit,
 	Compact(u32),
+	/// `Compact<T>` for a `CompactAs` type whose `decode_from` rejects numbers above the bound
+	CompactMax(u32, u128),
 	CompactUnit,
 	NonZeroU(u32),
 	NonZeroI(u32),
@@ -128,7 +130,7 @@ impl Shape {
 	/// The value a skipped field is reset to (`Default::default()`).
 	pub fn default_value(&self) -> Value {
 		match self {
-			Shape::UInt(_) | Shape::Compact(_) => Value::U(0),
+			Shape::UInt(_) | Shape::Compact(_) | Shape::CompactMax(..) => Value::U(0),
 			Shape::SInt(_) => Value::I(0),
 			Shape::F32 => Value::F32(0),
 			Shape::F64 => Value::F64(0),
@@ -303,6 +305,7 @@ pub fn enc_into(shape: &Shape, v: &Value, out: &mut Vec<u8>) -> Result<(), EncEr
 		(Shape::Bool, Value::Bool(x)) => out.push(*x as u8),
 		(Shape::Unit, _) | (Shape::CompactUnit, _) | (Shape::Phantom, _) => {},
 		(Shape::Compact(_), Value::U(x)) => enc_compact(*x, out),
+		(Shape::CompactMax(_, max), Value::U(x)) if x <= max => enc_compact(*x, out),
 		(Shape::Option(_), Value::None_) => out.push(0),
 		(Shape::Option(e), Value::Some_(x)) => {
 			out.push(1);
@@ -589,6 +592,13 @@ pub fn dec_from(shape: &Shape, c: &mut Cur) -> Result<Value, DecErr> {
 		},
 		Shape::Unit | Shape::CompactUnit | Shape::Phantom => Value::Unit,
 		Shape::Compact(bits) => Value::U(dec_compact(*bits, c)?),
+		Shape::CompactMax(bits, max) => {
+			let x = dec_compact(*bits, c)?;
+			if x > *max {
+				return Err(DecErr::Malformed("number rejected by CompactAs::decode_from"));
+			}
+			Value::U(x)
+		},
 		Shape::Option(e) => match c.byte()? {
 			0 => Value::None_,
 			1 => Value::Some_(Box::new(dec_from(e, c)?)),
